@@ -254,9 +254,9 @@ def bytes_sorted_strict(es):
 
 def run(ctx, args):
     quick = ctx.tier == "quick"
-    n_pairs = int(os.environ.get("C07_PAIRS", "20000")) if quick else 400000
-    n_impl = 3000 if quick else 40000
-    n_tab = 4000 if quick else 100000
+    n_pairs = int(os.environ.get("C07_PAIRS", "20000" if quick else "200000"))
+    n_impl = 3000 if quick else 20000
+    n_tab = 4000 if quick else 60000
     rng = ctx.rng
     st = lean_check(ctx, ["LlgoVerif.Props.C07"], ["LlgoVerif/Props/C07.lean"],
                     extra_files=["LlgoVerif/Model/GoType.lean", "LlgoVerif/Model/Iface.lean", "LlgoVerif/Spec/TypeIdent.lean",
@@ -556,7 +556,10 @@ def run_e2e(ctx, stats, pairs, pair_lines, pair_cmp, impls, impl_lines, specs, m
         homes = {pr["a"][1], pr["b"][1]}
         if homes - {"p", "q", "r"}:
             continue
-        if "unsafe.Pointer" in pr["a"][0] + pr["b"][0] and False:
+        if re.search(r'[{;]\s*\*?(?:\w+\.)?[GH]\[', pr["a"][0] + " " + pr["b"][0]):
+            # llgo panics ("invalid recv type") on an unnamed struct embedding a generic instance with methods
+            # (C15 known finding emit:struct-embedding-generic-instance): keep the shape out of the shared program
+            stats["e2e:skipped-struct-embedding-generic-instance"] = stats.get("e2e:skipped-struct-embedding-generic-instance", 0) + 1
             continue
         is_corpus = label.startswith("corpus:") or label.startswith("local-")
         key = label
@@ -695,6 +698,15 @@ def run_e2e(ctx, stats, pairs, pair_lines, pair_cmp, impls, impl_lines, specs, m
                 ctx.report("samename:method-pkg", CLASS_WHAT["samename:method-pkg"], rep)
             else:
                 ctx.report("e2e:impl:%s|%s" % (op, itf), "compiled program disagrees with the reference toolchain on an interface-satisfaction case", rep)
+    if not quick:
+        # e2e witness of diffname:targ-basic-spelling (breaks the LINK, hence a program of its own)
+        wd = os.path.join(ctx.scratch, "e2e-spelling")
+        e2e.write_module(wd, {"p/p.go": "package p\n\ntype G[A any] struct{ V A }\n\nfunc (G[A]) M() int { return 7 }\n",
+                              "main.go": "package main\n\nimport \"%s/p\"\n\nvar A *p.G[byte]\nvar B interface{ Apply(*p.G[uint8]) }\nvar Keep = []any{&A, &B}\n\nfunc main() { println(len(Keep)) }\n" % tg.MOD}, modname=tg.MOD)
+        wp = e2e.llgo_build(ctx, wd, os.path.join(wd, "llgo.bin"))
+        info["spelling_witness_builds"] = wp.returncode == 0
+        if wp.returncode != 0 and "undefined reference" in (wp.stdout + wp.stderr):
+            ctx.report("diffname:targ-basic-spelling", CLASS_WHAT["diffname:targ-basic-spelling"], {"program": "var A *p.G[byte]; var B interface{ Apply(*p.G[uint8]) }", "llgo": (wp.stdout + wp.stderr)[-400:]})
     info["differences"] = diffs
     info["samples"] = [{"e2e_reference": rl[:3], "e2e_llgo": ll[:3]}]
     ctx.log("e2e: %d cases, %d lines, %d differ from the reference toolchain" % (len(case_meta), len(rl), diffs))
